@@ -371,12 +371,14 @@ class _ImmutableTaskList:
         return self._list.__add__(_to_list(other))
 
     def __lshift__(self, other: Union['Task', Iterable['Task']]):
-        for t in self:
+        # The loop runs over a copy: when this list is a live view (task.successors, task.predecessors)
+        # the assignments below rewrite it while it is being walked and tasks would be skipped
+        for t in [t for t in self._list]:
             t.predecessors += other
         return other
 
     def __rshift__(self, other: Union['Task', Iterable['Task']]):
-        for t in self:
+        for t in [t for t in self._list]:
             t.successors += other
         return other
 
